@@ -333,7 +333,7 @@ def run_c13(ctx, fa):
     tries = 0
     while len(cases) < n and tries < 4 * n:
         tries += 1
-        g = gen.Gen(rnd, logical=False, max_depth=rnd.choice([1, 2, 3]), big=False, aliases=rnd.random() < 0.3)
+        g = gen.Gen(rnd, logical=rnd.random() < 0.3, max_depth=rnd.choice([1, 2, 3]), big=False, aliases=rnd.random() < 0.3)
         ir = g.schema()
         raw = g.render(ir)
         c = {"id": "k%d" % len(cases), "op": "canon", "schema": proj.pj(raw), "nodes": gen.count_nodes(ir), "variants": [], "enc": []}
